@@ -385,9 +385,9 @@ func c17r4(c *Ctx) {
 		}
 		as, ok1 := fs.Init.(*ast.AssignStmt)
 		be, ok2 := prog.Unparen(fs.Cond).(*ast.BinaryExpr)
-		inc, ok3 := fs.Post.(*ast.IncDecStmt)
+		incX, incTok, ok3 := prog.IncDecOf(info, fs.Post)
 		if ok1 && ok2 && ok3 && len(as.Lhs) == 1 && isSrc(as.Lhs[0]) && prog.IsField(info, "store.GCState.Begin")(as.Rhs[0]) &&
-			be.Op == token.LEQ && isSrc(be.X) && prog.IsField(info, "store.GCState.End")(be.Y) && inc.Tok == token.INC && isSrc(inc.X) {
+			be.Op == token.LEQ && isSrc(be.X) && prog.IsField(info, "store.GCState.End")(be.Y) && incTok == token.INC && isSrc(incX) {
 			okLoop = true
 		}
 		return true
@@ -414,9 +414,9 @@ func c17r4(c *Ctx) {
 		if !ok || fs.Post == nil {
 			return true
 		}
-		dec, isDec := fs.Post.(*ast.IncDecStmt)
+		_, decTok, isDec := prog.IncDecOf(info, fs.Post)
 		as, isA := fs.Init.(*ast.AssignStmt)
-		if !isDec || dec.Tok != token.DEC || !isA || len(as.Rhs) != 1 {
+		if !isDec || decTok != token.DEC || !isA || len(as.Rhs) != 1 {
 			return true
 		}
 		if be, isB := prog.Unparen(as.Rhs[0]).(*ast.BinaryExpr); !isB || be.Op != token.SUB || prog.ObjOf(info, be.X) != f.Param(1) {
@@ -446,6 +446,49 @@ func c17r4(c *Ctx) {
 			return true
 		})
 		if !found {
+			// the other spelling: `if size == 0 { continue }` and everything behind it ends the search
+			isSize := func(e ast.Expr) bool {
+				for _, s := range f.SourcesAt(e, e) {
+					if prog.MentionsField(info, s.Expr, "store.dataChunk.size") || strings.HasSuffix(s.Field, "size") {
+						return true
+					}
+				}
+				return false
+			}
+			for i, st := range fs.Body.List {
+				is, isIf := st.(*ast.IfStmt)
+				if !isIf || is.Else != nil || len(is.Body.List) != 1 {
+					continue
+				}
+				br, isBr := is.Body.List[0].(*ast.BranchStmt)
+				if !isBr || br.Tok != token.CONTINUE || br.Label != nil {
+					continue
+				}
+				as := prog.Decompose(is.Cond, true, is)
+				if len(as) != 1 || !(prog.AtomCmp(as[0], token.EQL, isSize, prog.IsIntConst(info, 0)) || prog.AtomCmp(as[0], token.LEQ, isSize, prog.IsIntConst(info, 0))) {
+					continue
+				}
+				found = true
+				rest := fs.Body.List[i+1:]
+				okRest := len(rest) > 0 && f.Terminates(rest[len(rest)-1])
+				for _, r := range rest {
+					ast.Inspect(r, func(y ast.Node) bool {
+						switch z := y.(type) {
+						case *ast.ForStmt, *ast.RangeStmt, *ast.FuncLit:
+							return false
+						case *ast.BranchStmt:
+							if z.Tok == token.CONTINUE {
+								okRest = false
+							}
+						}
+						return true
+					})
+				}
+				c.check(okRest, R, f.Key+": destination search stops at the nearest non-empty earlier file", c.pos(is), "only an empty file continues the search",
+					"the backwards search for the destination continues past the nearest non-empty earlier file on some branch: GC then appends into (and, on overflow, walks gc.Dst++ through) older live files below the range")
+			}
+		}
+		if !found {
 			c.undec(R, f.Key+": destination search", "size test not recognised in the destination search loop")
 		}
 		return true
@@ -453,11 +496,13 @@ func c17r4(c *Ctx) {
 	// stores to gc.Dst: start argument, an earlier index, or increment
 	start := f.Param(1)
 	ast.Inspect(f.Decl.Body, func(x ast.Node) bool {
-		switch s := x.(type) {
-		case *ast.IncDecStmt:
-			if isDst(s.X) {
-				c.check(s.Tok == token.INC, R, f.Key+": gc.Dst++", c.pos(s), "increment", "gc.Dst is decremented")
+		if ix, itok, isID := incDecNode(info, x); isID {
+			if isDst(ix) {
+				c.check(itok == token.INC, R, f.Key+": gc.Dst++", c.pos(x), "increment", "gc.Dst is decremented")
 			}
+			return true
+		}
+		switch s := x.(type) {
 		case *ast.AssignStmt:
 			for i, l := range s.Lhs {
 				if !isDst(l) || i >= len(s.Rhs) {
@@ -478,7 +523,7 @@ func c17r4(c *Ctx) {
 							if fs, isF := a.(*ast.ForStmt); isF && fs.Init != nil {
 								if ias, isA := fs.Init.(*ast.AssignStmt); isA && len(ias.Lhs) == 1 && prog.ObjOf(info, ias.Lhs[0]) == o {
 									if ibe, isB := prog.Unparen(ias.Rhs[0]).(*ast.BinaryExpr); isB && ibe.Op == token.SUB && prog.ObjOf(info, ibe.X) == start {
-										if dec, isD := fs.Post.(*ast.IncDecStmt); isD && dec.Tok == token.DEC {
+										if _, decTok, isD := prog.IncDecOf(info, fs.Post); isD && decTok == token.DEC {
 											// base+1 only when base < start-1 is the caller's business (guarded in code); accept i and i+1 <= start
 											ok = true
 										}
@@ -564,6 +609,14 @@ func c17r5(c *Ctx) {
 	}
 	clamp := false
 	ast.Inspect(f.Decl.Body, func(x ast.Node) bool {
+		if st, isS := x.(ast.Stmt); isS {
+			if ix, itok, isID := prog.IncDecOf(info, st); isID {
+				if isEnd(ix) {
+					c.check(itok == token.DEC, R, f.Key+": end--", c.pos(st), "decrement", "`end` is incremented")
+				}
+				return true
+			}
+		}
 		switch s := x.(type) {
 		case *ast.AssignStmt:
 			for i, l := range s.Lhs {
